@@ -159,7 +159,7 @@ pub fn generate(r: &mut Rng, contradictory: bool) -> Generated {
                 2 => Truth::DynArray { element: pick(r, &truths) },
                 _ => Truth::FixedArray {
                     element: pick(r, &truths),
-                    length:  *r.pick(&[3u64, 5, 10, evidence::WIDE_LENGTH]),
+                    length:  *r.pick(&[3u64, 5, 10, 0, 1, evidence::WIDE_LENGTH]),
                 },
             }
         };
@@ -476,7 +476,7 @@ pub fn generate_deep(r: &mut Rng) -> Generated {
             0 => Truth::DynArray { element: i - 1 },
             1 => Truth::FixedArray {
                 element: i - 1,
-                length:  *r.pick(&[3u64, 5, evidence::WIDE_LENGTH]),
+                length:  *r.pick(&[3u64, 5, 0, evidence::WIDE_LENGTH]),
             },
             _ => {
                 // mapping with a shared word key class (added below)
@@ -759,6 +759,48 @@ pub fn schedules(seed: u64) -> Vec<Sched> {
     ]
 }
 
+/// The resolved types as a client of the staged interface reads them: the
+/// layout `TypeChecker::unify` returns for three storage slots equated with
+/// the first three variables. Evidence delivered in two stages, with the
+/// layout asked for in between, must end with the layout that the same
+/// evidence gives when the layout is asked for once.
+fn stale_layout(ev: &EvidenceSet, sched: &Sched, res: &mut CaseResult) -> Option<(String, Value)> {
+    let run = |mode: Delivery| {
+        run_unify(
+            ev,
+            sched,
+            &UnifyOpts {
+                mode,
+                with_slots: true,
+                ..UnifyOpts::default()
+            },
+        )
+    };
+    let once = run(Delivery::ThroughTypeChecker);
+    let staged = run(Delivery::StagedThroughTypeChecker);
+    res.runs += 2;
+    res.steps += once.polls + staged.polls;
+    res.fault("layout_read_between_two_deliveries");
+    if once.panic.is_some() || staged.panic.is_some() || once.budget_exhausted || staged.budget_exhausted {
+        return None;
+    }
+    if once.layout == staged.layout {
+        return None;
+    }
+    let show = |l: &Option<storage_layout_extractor::StorageLayout>| match l {
+        Some(l) => l.slots().iter().map(|s| format!("{:?}+{}:{}", s.index, s.offset, serde_json::to_string(&s.typ).unwrap_or_default())).collect::<Vec<_>>(),
+        None => vec!["no layout".to_string()],
+    };
+    // The first entry that differs names the violation.
+    let (a, b) = (show(&once.layout), show(&staged.layout));
+    let first = a.iter().zip(b.iter()).find(|(x, y)| x != y).map(|(x, y)| format!("{} | {}", shorten(x), shorten(y))).unwrap_or_else(|| format!("{} entries | {} entries", a.len(), b.len()));
+    Some((format!("layout-differs-when-read-in-between:{first}"), json!({"asked_once": a, "asked_twice": b})))
+}
+
+fn shorten(s: &str) -> String {
+    s.chars().take(60).collect()
+}
+
 impl Check for C15Check {
     fn info(&self) -> CheckInfo {
         CheckInfo {
@@ -832,7 +874,8 @@ impl Check for C15Check {
             if o.record.unify_rounds > 2 {
                 res.probe("more_than_two_rounds");
             }
-            if let Some((sig, detail)) = compare(&g, &o) {
+            let verdict = compare(&g, &o).or_else(|| if mode == Delivery::StagedThroughTypeChecker { stale_layout(&g.ev, &sched, &mut res) } else { None });
+            if let Some((sig, detail)) = verdict {
                 res.violations.push(Violation {
                     property:  "C15".into(),
                     signature: sig,
@@ -877,7 +920,9 @@ impl Check for C15Check {
                 eprintln!("debug: model class {c} real class {real}: {} vars, first {:?}; data {:?}", vs.len(), &vs[..vs.len().min(6)], o.data[*real].as_ref().map(|d| d.iter().map(evidence::te_kind).collect::<Vec<_>>()));
             }
         }
-        Ok(compare(&g, &o).map(|(sig, detail)| Violation {
+        let mut scratch = CaseResult::default();
+        let verdict = compare(&g, &o).or_else(|| if mode == Delivery::StagedThroughTypeChecker { stale_layout(&g.ev, &sched, &mut scratch) } else { None });
+        Ok(verdict.map(|(sig, detail)| Violation {
             property:  "C15".into(),
             signature: sig,
             detail:    json!({"explanation": detail, "judgements": g.ev.judgements.iter().map(|(v, e)| format!("v{v}: {}", e.kind())).collect::<Vec<_>>()}),
